@@ -32,6 +32,20 @@ def case_of(flows, txns, rng=None):
     return {"flows": named(flows), "orders": all_orders(len(flows), rng), "txns": txns, "builds": 4}
 
 
+def shape_sample(rng, cfgs, n):
+    """coverage-directed sample of the generated space: one configuration per trie shape of the implementation model
+    (GenC03!Shape), the rest of the budget uniformly."""
+    groups = {}
+    for c in cfgs:
+        groups.setdefault(json.dumps(sorted(c["shape"])), []).append(c)
+    picked = [rng.choice(groups[k]) for k in sorted(groups)]
+    if len(picked) > n:
+        picked = rng.sample(picked, n)
+    ids = {id(c) for c in picked}
+    rest = [c for c in cfgs if id(c) not in ids]
+    return picked + rng.sample(rest, max(0, min(len(rest), n - len(picked))))
+
+
 # -- seeded random configurations beyond the exhaustive bounds (code -> spec)
 LITS = ["a", "b", "c", "v1"]
 PN = ["p", "q", "r", "x"]
@@ -334,10 +348,12 @@ def phase1(ctx, sd):
     """exhaustive I => Correct /\\ OrderIndependent on the bounded instances, the non-vacuity variants (every deviation of
     the code as found, now repaired, must be refuted by the same check) and the case generation, side by side."""
     T = ctx.thorough
-    runs = [("A: patterns <=2 segments, <=3 flows", {}), ("B: constraints, <=2 flows", SPACE_B)]
+    SPACE_C = dict(SPACE_B, MaxFlows="3", FlowDomain="<- FlowsC", TxnDomain="<- TxnsC")
+    runs = [("A: patterns <=2 segments, <=3 flows", {}), ("B: constraints, <=2 flows", SPACE_B),
+            ("C: overlapping patterns x constraints, <=3 flows", SPACE_C)]
     if T:
         runs.append(("A: patterns <=3 segments, <=2 flows", {"MaxPath": "3", "MaxFlows": "2"}))
-        runs.append(("B: constraints, <=3 flows", dict(SPACE_B, MaxFlows="3")))
+        runs.append(("B: constraints, user flows, <=3 flows", dict(SPACE_B, MaxFlows="3", FlowDomain="<- FlowsB1U")))
     broken = [("O7 node-level requirement copy", dict(SPACE_B, KF_NodeReq="TRUE")),
               ("O8 AddFlow through the old Lookup", {"LookupMode": '"old"'}),
               ("AddFlow through the request-style Lookup (wildcard sibling replaced)", {"LookupMode": '"new"'}),
@@ -391,7 +407,7 @@ def run(ctx):
                        "order (tree level: every permutation, engine level: 4 engine builds) and must select the same flows each "
                        "time; a case is non-trivial when the spec decides MustRun for some flow and MustNotRun for another "
                        "(FilterP!NonTrivial, printed by the trace spec); distinct by (flows, transaction)")
-    ctx.cov["checker_cmd"] = "tlc -config MC_A_quick.cfg MC_C03.tla ; tlc -config MC_B_quick.cfg MC_C03.tla ; tlc -config FilterTrace.cfg FilterTrace.tla"
+    ctx.cov["checker_cmd"] = "tlc -config MC_A_quick.cfg MC_C03.tla ; tlc -config MC_B_quick.cfg MC_C03.tla ; tlc -config MC_C_quick.cfg MC_C03.tla ; tlc -config FilterTrace.cfg FilterTrace.tla"
     ctx.cov["trusted_base"] = ["TLC 1.8", "CommunityModules Json/SequencesExt", "Go toolchain",
                                "harness/cmd/c03 projection (names of the flows returned by GetFlow; GetFlowInvocations deltas; proc.exec hook events)",
                                "rendering host labels / path segments to URL strings"]
@@ -410,12 +426,15 @@ def run(ctx):
     # (2) spec -> code: the bounded input space enumerated by TLC, every permutation as load order, replayed
     total = 0
     jobs = []
-    for name, g, nq in (("A", genA, 300), ("B", genB, 200)):
+    for name, g, nq in (("A", genA, 400), ("B", genB, 200)):
         cfgs = sorted(g["configs"], key=lambda c: json.dumps(c, sort_keys=True))
         total += len(cfgs)
+        shapes = len({json.dumps(sorted(c["shape"])) for c in cfgs})
         if not T:
-            cfgs = ctx.rng.sample(cfgs, min(nq, len(cfgs)))
-        cases = [case_of(c, g["txns"]) for c in cfgs]
+            cfgs = shape_sample(ctx.rng, cfgs, nq)
+        ctx.notes.append("space %s: %d configurations, %d trie shapes of the implementation model; %d replayed covering %d shapes" % (
+            name, len(g["configs"]), shapes, len(cfgs), len({json.dumps(sorted(c["shape"])) for c in cfgs})))
+        cases = [case_of(c["fl"], g["txns"]) for c in cfgs]
         jobs.append(("tree", cases, "gen" + name))
         # the same space through the whole engine (YAML -> Initialize -> ExecuteFlow), a seeded sample (user flows only:
         # system flows are not loaded from flow files)
